@@ -117,6 +117,37 @@ Theorem C20_logging_commutes : forall n next c,
 Proof. exact retry_log_commute. Qed.
 Print Assumptions C20_logging_commutes.
 
+(* the two main theorems over an ARBITRARY stateful RoundTripper [next] (another middleware, a whole
+   stack, a transport with its own state): [res next c i] is what the i-th invocation of [next]
+   returns when the first starts in wire state c, [st next c i] the wire state after i invocations.
+   If invocation j is the first acceptable one among the n+1 allowed, the result is exactly its
+   result and [next] has been invoked exactly j+1 times; if none is, the result is that of
+   invocation n, unchanged, after exactly n+1 invocations *)
+Theorem C20_stack_stops_at_first_acceptable : forall n next c j,
+  (0 <= n)%Z -> j < Z.to_nat (n + 1) ->
+  (forall i, i < j -> acceptable_res (res next c i) = false) ->
+  acceptable_res (res next c j) = true ->
+  snd (fst (retry_tr n next c)) = res next c j /\ snd (retry_tr n next c) = st next c (S j).
+Proof. exact retry_tr_hit. Qed.
+Print Assumptions C20_stack_stops_at_first_acceptable.
+
+Theorem C20_stack_exhausted_returns_last : forall n next c,
+  (0 <= n)%Z ->
+  (forall i, i < Z.to_nat (n + 1) -> acceptable_res (res next c i) = false) ->
+  snd (fst (retry_tr n next c)) = res next c (Z.to_nat n) /\
+  snd (retry_tr n next c) = st next c (Z.to_nat (n + 1)).
+Proof. exact retry_tr_miss. Qed.
+Print Assumptions C20_stack_exhausted_returns_last.
+
+(* non-vacuity: an inner retry(1) over a wire failing three times, seen from an outer retry(1):
+   invocation 0 of the inner instance is not acceptable, invocation 1 is *)
+Example C20_example_stack_hit :
+  let next := retry_tr 1 (wire (script_of
+     [RErr 1 None; RResp {| r_id := 2; r_status := 503 |}; RErr 3 None; RResp {| r_id := 4; r_status := 200 |}]
+     (RErr 0 None))) in
+  acceptable_res (res next 0 0) = false /\ acceptable_res (res next 0 1) = true /\ st next 0 2 = 4.
+Proof. vm_compute. split; [reflexivity | split; reflexivity]. Qed.
+
 (* non-vacuity of the stack theorems: a retry(1) inside a retry(1) over a wire that fails three
    times and then answers 200 makes 4 = (1+1)*(1+1) wire calls and returns that answer *)
 Example C20_example_nested :
